@@ -804,8 +804,27 @@ def discharge(ob, timeout_ms=10000, rep=None):
             goal = ob.goal
     s.add(z3.Not(goal))
     s.add(*core.list_axiom_instances(list(assumptions) + [goal]))
+    if ob.kind != "cover":
+        s.set("timeout", min(int(timeout_ms), 6000))  # first a short attempt, then other seeds, then the full budget
     r = s.check()
     ob.backend = "z3"
+    if r == z3.unknown and ob.kind != "cover":
+        # z3's nonlinear search is sensitive to incidental term order: retry with other seeds / arithmetic solvers before giving up
+        for attempt, opts in enumerate(({"random_seed": 7}, {"random_seed": 23, "arith.solver": 2}, {"random_seed": 101, "arith.nl.order": True}, {})):
+            s2 = _solver(6000 if opts else timeout_ms)
+            for k, v in opts.items():
+                try:
+                    s2.set(k, v)
+                except z3.Z3Exception:
+                    pass
+            s2.add(*assumptions)
+            s2.add(z3.Not(goal))
+            s2.add(*core.list_axiom_instances(list(assumptions) + [goal]))
+            r = s2.check()
+            if r != z3.unknown:
+                s = s2
+                ob.note = (ob.note or "") + " [decided on retry %d]" % (attempt + 1)
+                break
     if r == z3.unknown:
         r2 = _try_cvc5(s, timeout_ms)
         if r2 is not None:
